@@ -29,6 +29,7 @@ def jobs(prop, tier, only_fn=None):
             ("wcsicmp_s", 4, FOLD, ["-DVH_MEMSET_WORD"], ("libc_models.c", "wide_models.c"), 24, 16),
             ("wcsnorm_s.reorder.fits", 7, FOLD, ["-DVH_MEMSET_WORD", "-DNMARKS=12", "-DNDMAX=16"], ("libc_models.c", "wide_models.c"), 18, 16),
             ("wcsnorm_s.reorder.nospace", 7, FOLD, ["-DVH_MEMSET_WORD", "-DNMARKS=12", "-DNDMAX=12"], ("libc_models.c", "wide_models.c"), 18, 16),
+            ("wcsnorm_s.heapscratch.nfd", 8, FOLD, ["-DVH_MEMSET_WORD", "-DNBASE=126", "-DNMARKS=12", "-DNDMAX=144", "-DNMODE=WCSNORM_NFD"], ("libc_models.c", "wide_models.c"), 150, 16),
             ] + ([("wcsnatcmp_s", 5, FOLD, ["-DVH_MEMSET_WORD"], ("libc_models.c", "wide_models.c"), 24, 16)] if tier != "quick" else [])
     for name, (f, call, callv) in WIDE.items():
         if name in ("snwprintf_s", "vsnwprintf_s"):
@@ -41,10 +42,15 @@ def jobs(prop, tier, only_fn=None):
         if only_fn and fn != only_fn:
             continue
         cm = dict(common)
+        if scen == 8:
+            if tier == "quick":
+                continue  # no verdict within 600 s with pointer checks on: thorough tier only, without them
+            cm["memchecks"] = False
+            cm["timeout"] = 2400
         if scen == 6:
             cm["memchecks"] = False  # 520-element clears under pointer checks exhaust memory; the vswprintf model asserts its buffer
         out.append(Job("%s.C20" % name, "C20", "h_alloc.c", files, defines=["-DSCEN=%d" % scen] + defs, repo_defines=WRAP, models=models,
-                       unwind_default=unw, unwind_rules=[(r"^safec_ntoa", 34), (r"^memcpy\.", 210), (r"^memset\.", 530 if scen == 6 else 40), (r"^(strcat|strlen)\.", 48)], fn=fn, object_bits=obits,
+                       unwind_default=unw, unwind_rules=[(r"^safec_ntoa", 34), (r"^memcpy\.", 700 if scen == 8 else 210), (r"^memset\.", 530 if scen == 6 else 600 if scen == 8 else 40), (r"^(strcat|strlen)\.", 48)], fn=fn, object_bits=obits,
                        bounds={"scenario": name, "failing allocations": "any subset of the first 8 requests (symbolic mask)",
                                "inputs": "concrete wide strings (empty, ASCII, multibyte, unconvertible) / concrete operands"}, **cm))
     return out
